@@ -11,7 +11,7 @@ from ..sched import selection_set
 from ..spaces import shard_iter
 
 ID = "C15"
-BUDGET = {"quick": 100, "thorough": 600}
+BUDGET = {"quick": 240, "thorough": 600}
 PX, PY = Edge(-1, "pos"), Edge(-2, "pos")
 
 
